@@ -280,6 +280,8 @@ def r5(ctx):
     # special-token ids start right behind the regular ids (byte tokenizer: 256): an offset of 255 makes the first special token
     # share its id with the byte 0xFF, which de_tokenize pushes as a raw byte (R-C04-2 re-evaluated)
     c04.r2(ctx)
+    # decoding returns the joined tokens untouched (R-C04-11 re-evaluated): a decoder that cleans / trims the text cannot return the input
+    c04.r11(ctx)
 
 
 @rule('C01', 'R-C01-6', 'T11 SIBLING (matcher and lookup agree on what a special token is)',
@@ -316,3 +318,4 @@ def r6(ctx):
 def r7(ctx):
     from rules import c11
     c11.charstring_primitive(ctx)
+
